@@ -180,6 +180,9 @@ def write_and_load(cfg, workdir, tid):
     X = pd.DataFrame({"dim_0": [pd.Series([VALUES[v] for v in c["vals"]]) for c in panel]})
     if tid % 3 == 1:        # row labels as left behind by a shuffle / train-test split: rows are written in the given order
         X.index = [(7 * i + 3) % len(panel) + 10 * ((i + 1) % 2) for i in range(len(panel))]
+    if tid % 4 == 2:        # cells cut out of a series whose index has a name: the name is not part of the data
+        for c in X["dim_0"]:
+            c.index.name = "time"
     d = os.path.join(workdir, "w%d" % tid)
     kw = {}
     if opts["labelled"]:
@@ -207,6 +210,12 @@ def write_and_load(cfg, workdir, tid):
             got = [[float(v) for v in Xl.iloc[i, 0].values] for i in range(len(Xl))]
             if got != printed:
                 loaded["cases"] = [{"vals": [-3], "lab": "loaded values are not the printed numbers"}]
+            if isinstance(res, tuple):
+                # the single-frame form of the loader carries the same labels, instance by instance, in its class_vals column
+                one = load_from_tsfile_to_dataframe(path, return_separate_X_and_y=False)
+                if [str(v) for v in one["class_vals"]] != [str(v) for v in res[1]] or len(one) != len(Xl):
+                    loaded["cases"] = [{"vals": [-4], "lab": "single-frame form has labels %s, (X, y) form has %s"
+                                        % (list(one["class_vals"])[:6], list(res[1])[:6])}]
         return parse_text(text, labels), loaded
     except Exception as e:
         return None, {"crash": type(e).__name__ + ": " + str(e)[:120]}
